@@ -189,3 +189,24 @@ def weather_at(cfg, dates):
     if (pos >= len(d)).any() or (d[pos] != want).any():
         raise ValueError("date not covered by the weather table")
     return df[["MinTemp", "MaxTemp", "Precipitation", "ReferenceET"]].values.astype(float)[pos]
+
+
+# ------------------------------------------------------------------------------------------------
+# enumerated special constellations shared by several run-based checks (fixed cases)
+# ------------------------------------------------------------------------------------------------
+def back_to_back_cases():
+    """Seasons that follow each other without a fallow day: a crop that needs (almost) the whole year with its latest
+    harvest date on the next planting day, with and without off-season simulation, irrigated in every way."""
+    out = []
+    w = dict(kind="synth", first="2001-04-20", days=1500, tmean=25.0, amp=2.5, phase=0, dtr=9.0, et0=4.5, rain_p=0.3, rain_mm=10.0,
+             noise=21, events=[dict(type="storm", day=200, mm=120.0), dict(type="dry", day=420, len=60)])
+    for crop in ("SugarCane", "Cassava"):
+        for off in (False, True):
+            for irr in (dict(method=0), dict(method=1, SMT=[60.0, 60.0, 50.0, 50.0], MaxIrrSeason=600.0), dict(method=2, IrrInterval=10, AppEff=80.0),
+                        dict(method=4, NetIrrSMT=60.0), dict(method=5, depth=3.0)):
+                cfg = dict(start="2001/05/01", end="2004/04/30", off_season=off,
+                           crop=dict(name=crop, planting="05/01", harvest="05/01", overrides={}),
+                           soil=dict(type="Loam", args={}), iwc=dict(wc_type="Pct", method="Layer", depth_layer=[1], value=[40.0]),
+                           irr=irr, fm=None, ffm=None, gw=None, co2=None, weather=w)
+                out.append(("back2back-%s-off%d-m%d" % (crop, int(off), irr["method"]), cfg))
+    return out
